@@ -201,7 +201,7 @@ def tlc(module, cfg=None, cwd=SPEC, workers=4, simulate=None, depth=None, covera
             r.generated = r.distinct = int(m.group(1))
     log("[tlc] %s cfg=%s: %d generated, %d distinct, depth %d, %.1fs%s" % (
         module, cfg, r.generated, r.distinct, r.depth, r.wall,
-        (" VIOLATION " + r.violation) if r.violation else ""))
+        (" (TLC refuted " + r.violation + ")") if r.violation else ""))   # never the interface's keyword: this is a log line
     if r.violation and allow_violation:
         return r
     bad = r.violation or p.returncode != 0
